@@ -85,6 +85,16 @@ def generate(rng, tier):
         if r > 0.82:
             ast = malform(rng, ast)
         out.append(mk_case(rng, ast, kind="malformed" if "malformed" in ast else "gen"))
+    # character level: net_str.split(",") + strip() of the running Python on operand texts with every ASCII blank
+    blank = " \t\n\r\x0b\x0c\x1c\x1d\x1e\x1f"
+    for i in range(20 if tier == "quick" else 200):
+        k = rng.randint(1, 5)
+        parts = []
+        for _ in range(k):
+            core = rng.choice(["a", "n_1", "1'b0", "1'b1", "xinput", "tie0", "", "_w", "G12gat", "a b", "x\ty"])
+            parts.append("".join(rng.choice(blank) for _ in range(rng.randint(0, 3))) + core +
+                         "".join(rng.choice(blank) for _ in range(rng.randint(0, 3))))
+        out.append({"kind": "split", "text": ",".join(parts)})
     if tier == "thorough":
         d = lib.REPO / "circuitgraph" / "netlists"
         for f in sorted(list(d.glob("*.v")) + list((d / "tests").glob("*.v"))):
@@ -108,6 +118,8 @@ def _read(text, name, bbdefs, fast):
 
 
 def impl(case):
+    if case["kind"] == "split":
+        return {"pieces": [n.strip() for n in case["text"].split(",")]}
     if case["kind"] == "bundled":
         raw = (lib.REPO / "circuitgraph" / "netlists" / case["file"]).read_text()
         had_comments = "//" in raw or "/*" in raw
@@ -168,6 +180,9 @@ def cres(r):
 
 
 def to_coq(case, obs):
+    if case["kind"] == "split":
+        codes = lambda t: lib.cl(str(ord(ch)) for ch in t)
+        return "CSplit %s %s" % (codes(case["text"]), lib.cl(codes(p) for p in obs["pieces"]))
     if case["kind"] == "bundled":
         if "skip" in obs:
             return None
@@ -182,6 +197,8 @@ def to_coq(case, obs):
 
 # ---------------------------------------------------------------- evidence
 def nontrivial(case, obs):
+    if case["kind"] == "split":
+        return len(obs["pieces"]) >= 2
     if case["kind"] == "bundled":
         return "skip" not in obs
     return case["kind"] != "malformed" and "ok" in obs["fast"] and "ok" in obs["full"] and len(obs["fast"]["ok"]["nodes"]) >= 3
@@ -204,6 +221,8 @@ def _cyclic(d):
 
 
 def classify(case, obs):
+    if case["kind"] == "split":
+        return ["split/strip:%d pieces" % len(obs["pieces"])]
     if case["kind"] == "bundled":
         if "skip" in obs:
             return ["bundled:skipped"]
